@@ -74,6 +74,9 @@ Rq == [route |-> Ev.route, via |-> Ev.via, mb |-> Ev.mb, id |-> Ev.id, body |-> 
 (* the request, and every exchange a client method made, got a response *)
 Answered == /\ Ev.st # "dropped"
             /\ \A k \in DOMAIN Ev.http : Ev.http[k].c # 0
+            \* the attachment route of the same message, asked for attachment numbers that do not exist (also negative
+            \* and unparsable ones): every such request is answered too
+            /\ IF Has("attach") THEN \A k \in DOMAIN Ev.attach : Ev.attach[k].c # 0 ELSE TRUE
 
 TrReq == /\ Is("req")
          /\ Answered
